@@ -187,6 +187,7 @@ type jobReport struct {
 	Samples      []string       `json:"samples"`
 	PublicChecks int            `json:"public_checks"`
 	Extra        map[string]int `json:"extra,omitempty"`
+	Inconclusive []string       `json:"inconclusive,omitempty"` // parts of the job that could not be decided (not a violation, not exhaustive)
 }
 
 func (r *jobReport) fail(sig string, detail interface{}) {
@@ -675,6 +676,9 @@ func runJobCheck(run *ev.Run, kind string, jobs []interface{}, rule string) int 
 		for k, v := range rep.Reasons {
 			reasons[k] += v
 			run.Distinct("class", fmt.Sprintf("%s|%s", jb, k))
+		}
+		for _, inc := range rep.Inconclusive {
+			run.NotExhaustive(inc)
 		}
 		for k, v := range rep.Extra {
 			run.Count(k, int64(v))
